@@ -132,8 +132,28 @@ func tableConcurrent(c *evid.Ctx, prop string) {
 			case 2:
 				d.N.S.NumNodes()
 			case 3:
-				var sb strings.Builder
-				d.N.S.WriteStatus(&sb)
+				// A report written through a slow writer while the table changes must still be one
+				// consistent picture: its total equals the sum of its per-bucket counts.
+				w := &slowWriter{}
+				d.N.S.WriteStatus(w)
+				total, sum := -1, 0
+				for _, line := range strings.Split(w.sb.String(), "\n") {
+					var g, t, bi, bn int
+					if _, err := fmt.Sscanf(line, "Nodes in table: %d good, %d total", &g, &t); err == nil {
+						total = t
+					}
+					if _, err := fmt.Sscanf(line, "b# %d: %d nodes", &bi, &bn); err == nil {
+						sum += bn
+					}
+				}
+				if total >= 0 && total != sum && prop == "C05" {
+					pmu.Lock()
+					c.Violation("status-report-disagrees-with-itself", fmt.Sprintf("WriteStatus while the table was changing: summary says %d entries, the buckets it lists hold %d", total, sum), nil)
+					pmu.Unlock()
+				}
+				pmu.Lock()
+				c.Count("status reports checked for internal agreement under concurrent change", 1)
+				pmu.Unlock()
 			case 4:
 				d.N.S.VerifTable()
 			}
@@ -170,3 +190,17 @@ func tableConcurrent(c *evid.Ctx, prop string) {
 }
 
 func secureFor(id [20]byte, ip net.IP) [20]byte { return refSecure(id, ip) }
+
+
+type slowWriter struct {
+	sb    strings.Builder
+	calls int
+}
+
+func (w *slowWriter) Write(b []byte) (int, error) {
+	w.calls++
+	if w.calls <= 3 {
+		time.Sleep(150 * time.Microsecond)
+	}
+	return w.sb.Write(b)
+}
